@@ -3,27 +3,50 @@
 
 Usage: python3 gen_manifest.py   (needs bin/rqcheck built)
 """
-import json, subprocess, sys
+import json, os, re, subprocess
 
 ids = [json.loads(l)["id"] for l in open("/verif/properties.jsonl")]
-out = subprocess.run(["/verif/bin/rqcheck", "-list"], capture_output=True, text=True, check=True).stdout
+env = dict(os.environ, RQCHECK_LIST_JSON="1")
+out = subprocess.run(["/verif/bin/rqcheck", "-list"], capture_output=True, text=True, check=True, env=env).stdout
 reg = {}
 for line in out.splitlines():
-    i, _, t = line.partition("\t")
-    reg[i] = t
+    d = json.loads(line)
+    reg[d["id"]] = d
 
-# per-property: technique (deciding method) and what the level means
+# optional per-property overrides
 TECH = json.load(open("/verif/manifest_notes.json"))
 
-NA = {
-    "C28": "byte-for-byte round trip over all inputs and chunk sizes: truth lives in values (gzip framing, read-loop arithmetic at exact multiples), not in the shape of the code; the only structural remnants (sequence/stream-id guards, removal on abort) are pinned one-to-one by existing unit tests, so a static rule would restate the source (DESIGN.md section 6)",
+RULES = {
+    "DOM": "must-pass-through (cut) checks on the SSA block graph with value-sense gate edges",
+    "ORD": "ordering (dominance) checks between calls on the SSA block graph",
+    "PAIR": "acquire/release pairing on every exit path",
+    "WHO": "who-may-call / who-may-write checks over resolved callees",
+    "GUARD": "must-hold lockset analysis of field accesses",
+    "TABLE": "table agreement between sibling implementations extracted from SSA",
+    "DECIDE": "decision-table extraction: CFG interpretation under every valuation of the branch conditions, compared with a reference table",
+    "CONST": "constant / argument-flow checks on resolved call sites",
+    "LANG": "regular-language inclusion (guard regex vs reference grammar, product automaton, shortest witness)",
+    "TAINT": "intra-procedural value-flow (taint) checks",
+    "INIT": "initialisation / hand-over checks on every path",
+    "PLAN": "abstract replay of the persisted file-system plan at every crash point",
+    "ERR": "dropped-error checks on resolved call sites",
 }
+
+NA = {}
 
 checks = []
 na = []
 for i in ids:
     if i in reg:
         n = TECH.get(i, {})
+        expl = reg[i]["explanation"]
+        kinds = [k for k in RULES if re.search(r"\b%s\b" % k, expl)]
+        tech = n.get("technique") or ("static analysis of /repo's type-checked SSA (go/packages + go/ssa), no execution: " +
+                                      "; ".join(RULES[k] for k in kinds))
+        notcov = reg[i].get("not_covered") or []
+        text = n.get("text") or ("Structural necessary conditions of the property, decided on every path of the current source by static analysis (no execution). " +
+                                 "Clauses: " + expl[:900] + ("…" if len(expl) > 900 else "") +
+                                 (" NOT decided: " + "; ".join(notcov) + "." if notcov else ""))
         checks.append({
             "property_id": i,
             "quick_cmd": "/verif/check.sh %s quick" % i,
@@ -33,14 +56,14 @@ for i in ids:
             "engine": "rqcheck",
             "level_claimed": {
                 "category": "other",
-                "text": n.get("text", "Structural necessary conditions of the property, decided on every path of the current source by static analysis (no execution); the behaviour itself is not decided."),
+                "text": text,
                 "design_ref": "DESIGN.md section 4, " + i,
             },
-            "level_note": n.get("note", "Trusted: go/types, go/ssa, VTA call graph, the reference tables of DESIGN.md appendix A; hashicorp/raft, go-sqlite3 and SQLite behave as documented. Clauses not covered are listed in the evidence file's assumptions."),
-            "technique": n.get("technique", "static analysis over typed AST / SSA / call graph (custom rules)"),
+            "level_note": n.get("note", "Trusted: go/types, go/ssa, the reference tables in the checker (DESIGN.md appendix A); hashicorp/raft, go-sqlite3, SQLite and the file system behave as documented. The behaviour itself (histories, byte equality, recovered contents) is not decided; see 'NOT decided' in the level text and the evidence file's assumptions."),
+            "technique": tech,
         })
     else:
-        na.append({"property_id": i, "reason": NA.get(i, "check not built yet (work in progress); see DESIGN.md section 4")})
+        na.append({"property_id": i, "reason": NA.get(i, "no sound static rule in reach; see DESIGN.md section 6")})
 
 m = {
     "version": 1,
@@ -56,7 +79,7 @@ m = {
         "name": "rqcheck",
         "path": "checker",
         "serves_properties": sorted(reg),
-        "kind_free_text": "repository-specific static analyser: go/packages + go/ssa + go/cfg-style cut checks, value-sense edges, decision-table extraction, regular-language inclusion, VTA call graph",
+        "kind_free_text": "repository-specific static analyser: go/packages + go/ssa cut checks with value-sense edges, decision-table extraction, lockset, regular-language inclusion, plan replay, VTA call graph",
     }],
     "checks": checks,
     "notes": "All claims are level 'other': structural necessary conditions decided statically on every run from /repo's working tree. Genuine defects found are listed in known_findings.json (fixed: entries name the /repo commit).",
